@@ -299,8 +299,13 @@ def _parse_properties(
                 if parent_schema_name:
                     sanitized_prop_name = NameSanitizer.sanitize_class_name(prop_name)
                     # Avoid redundant prefixing if the property name already starts with the parent schema name
-                    # e.g., Entry + entry_specific_role -> EntrySpecificRole (not EntryEntrySpecificRole)
-                    if sanitized_prop_name.lower().startswith(parent_schema_name.lower()):
+                    # e.g., Entry + entry_specific_role -> EntrySpecificRole (not EntryEntrySpecificRole),
+                    # unless a sibling property (Entry + specific_role) already owns that name
+                    if sanitized_prop_name.lower().startswith(parent_schema_name.lower()) and not any(
+                        f"{parent_schema_name}{NameSanitizer.sanitize_class_name(other)}" == sanitized_prop_name
+                        for other in properties_node
+                        if isinstance(other, str) and other and other != prop_name
+                    ):
                         prop_context_name = sanitized_prop_name
                     else:
                         prop_context_name = f"{parent_schema_name}{sanitized_prop_name}"
